@@ -217,6 +217,9 @@ def other(x):
     return 'other-%s' % (x if not isinstance(x, str) else x[-2:])        # (a value every backend can store)
 
 
+_BLOCKED = [0]
+
+
 class Runner:
     def __init__(self, cfg, tmp):
         import klepto, klepto.safe
@@ -385,6 +388,10 @@ class Runner:
         def drive(h):
             random.setstate(st)
             outs = []
+            # management operations that are no-ops on the original must be no-ops on the copy: switching on what is on, asking the state
+            try: h.archived(True); outs.append('on:ok')
+            except ValueError: outs.append('on:ValueError')
+            outs.append('archived=%r' % bool(h.archived()))
             for x in seq:
                 try: outs.append(repr(h(self.A(x))))
                 except Exception as e: outs.append(type(e).__name__)
@@ -433,13 +440,25 @@ class Runner:
                 v = orig(seq); chosen.append(v); return v
             random.choice = mychoice
             n0 = len(self.log)
-            try:
+            def run_call():
                 try:
-                    out = {'ret': self.V(f(*args))}
+                    return {'ret': self.V(f(*args))}
                 except Exception as e:
-                    out = {'exc': exc_name(e)}
+                    return {'exc': exc_name(e)}
+            try:
+                if getattr(self, 'after_raise', False) and 'sql' not in self.cfg['backend'] and _BLOCKED[0] < 3:
+                    # the call right after one that raised is made from ANOTHER thread: whatever the raising call still holds
+                    # (a lock, a half-open resource) must not keep other callers out
+                    import threading
+                    box = {}
+                    t = threading.Thread(target=lambda: box.update(out=run_call()), daemon=True)
+                    t.start(); t.join(3)
+                    out = box.get('out') or {'exc': 'BLOCKED: the call did not return within 3 s from a second thread', 'blocked': True}
+                else:
+                    out = run_call()
             finally:
                 random.choice = orig
+            self.after_raise = 'exc' in out and not out.get('blocked')
             out['evals'] = len(self.log) - n0
             line = dict(op='call', key=key, fn=self.fnout(x),
                         victim=self.K(chosen[0]) if chosen else None)
